@@ -21,6 +21,7 @@ package dag
 import (
 	"encoding/base64"
 	"fmt"
+	"math"
 	"time"
 
 	"github.com/lestrrat-go/jwx/v2/jwa"
@@ -150,7 +151,9 @@ func parseVersion(transaction *transaction, headers jws.Headers, _ *jws.Message)
 		return transactionValidationError(missingHeaderErrFmt, versionHeader)
 	} else if versionAsFloat64, ok := versionAsInterf.(float64); !ok {
 		return transactionValidationError(invalidHeaderErrFmt, versionHeader)
-	} else if version = Version(versionAsFloat64); !versionAllowed(version) {
+	} else if versionAsUint32, ok := uint32Header(versionAsFloat64); !ok {
+		return transactionValidationError(invalidHeaderErrFmt, versionHeader)
+	} else if version = Version(versionAsUint32); !versionAllowed(version) {
 		return transactionValidationError("unsupported version: %d", version)
 	} else {
 		transaction.version = version
@@ -214,10 +217,22 @@ func parseLamportClock(transaction *transaction, headers jws.Headers, _ *jws.Mes
 		return transactionValidationError(missingHeaderErrFmt, lamportClockHeader)
 	} else if lcAsFloat64, ok := lcAsInterf.(float64); !ok {
 		return transactionValidationError(invalidHeaderErrFmt, lamportClockHeader)
+	} else if lc, ok := uint32Header(lcAsFloat64); !ok {
+		return transactionValidationError(invalidHeaderErrFmt, lamportClockHeader)
 	} else {
-		transaction.lamportClock = uint32(lcAsFloat64)
+		transaction.lamportClock = lc
 		return nil
 	}
+}
+
+// uint32Header converts the number in a header to an unsigned 32-bit integer. It reports false when the number is not one:
+// converting a fraction truncates it, and the result of converting a negative or too large float64 is implementation-specific,
+// so nodes could derive different values from the same signed bytes.
+func uint32Header(value float64) (uint32, bool) {
+	if value < 0 || value > math.MaxUint32 || value != math.Trunc(value) {
+		return 0, false
+	}
+	return uint32(value), true
 }
 
 func isAlgoAllowed(algo jwa.SignatureAlgorithm) bool {
